@@ -47,6 +47,9 @@ def mult_of_pow2(term):
         return sum(mult_of_pow2(a) for a in term.args)
     if term.op == '+':
         return min(mult_of_pow2(a) for a in term.args)
+    if term.op == 'mod' and term.args[1].op == 'int' and is_pow2(term.args[1].args[0]):
+        # (x mod 2^m) keeps every factor 2^k of x with k <= m
+        return min(mult_of_pow2(term.args[0]), term.args[1].args[0].bit_length() - 1)
     return 0
 
 
